@@ -48,6 +48,7 @@ Step(t, e) ==
          IN [t5 EXCEPT !.open = @ \ {r}, !.done = @ \cup {[rid |-> r.rid, m |-> r.m, target |-> r.target, t0 |-> r.t0, t1 |-> e.t, res |-> e.res]}]
     [] e.ev = "end" -> IF t.open = {} THEN t0 ELSE Viol(t0, e, "a resolution never returned (hangs)")
     [] e.ev = "panic" -> Viol(t0, e, "panic: " \o e.msg \o " at " \o e.loc)
+    [] e.ev = "hang" -> Viol(t0, e, "the scenario never ended: the code under test kept producing events without bound or stopped making progress (" \o e.why \o ")")
     [] OTHER -> t0
 Init == l = 1 /\ s = Init0
 Next == l <= Len(Rec) /\ s' = Step(s, Rec[l]) /\ l' = l + 1
